@@ -904,7 +904,7 @@ func (th *Thread) exec(fr *frame, ins ssa.Instruction) bool {
 		m.epoch = p.w.epoch
 		fr.set(ins, m)
 	case *ssa.Range:
-		fr.set(ins, th.rangeIter(fr.get(ins.X), ins.X.Type()))
+		fr.set(ins, th.rangeIter(fr.get(ins.X), ins.X.Type(), fr))
 	case *ssa.Next:
 		fr.set(ins, th.iterNext(fr.get(ins.Iter), ins))
 	case *ssa.FieldAddr:
